@@ -228,6 +228,13 @@ def gen_sdl(seed, idx):
         out.append("extend enum Color%s {\n  PURPLE\n}" % _dirs(r, "ENUM"))
     if r.random() < 0.3:
         out.append("extend input Pt {\n  z: Int\n}")
+    if has_if and r.random() < 0.5:
+        # two legal type names that differ by case only: "node" next to the
+        # interface "Node" (the lower-case one referenced from a type that
+        # sorts before both)
+        out.append("type node {\n  n: Int\n}")
+        out.append("type Edge {\n  to: node\n}")
+        out.append("extend type %s {\n  edge: Edge\n}" % qname)
     if r.random() < 0.35:
         # legal user types with ONE leading underscore (federation style):
         # only names starting with two underscores are reserved
@@ -300,8 +307,10 @@ def code_schema(idx):
         [
             Field("thing", node, args=[
                 Argument("shade", color, default_value=(3, "t")),
+                # (a default dict written in another order than the type's
+                # fields: printing goes by the type)
                 Argument("box", box, default_value={
-                    "w": 1, "shade": 1, "labels": ["x"]}),
+                    "labels": ["x"], "shade": 1, "w": 1}),
                 Argument("n", Int, default_value=None),
             ]),
             Field("ab", ListType(u)),
